@@ -193,6 +193,11 @@ func (s *Stream) readBuf() []byte {
 	if s.filledBuffer {
 		s.bufSize *= 2
 		remainBuf := s.buf
+		// replacing ill-formed bytes by U+FFFD makes the buffer longer than the
+		// size it was allocated with: the new buffer must hold all of it
+		for s.bufSize < int64(len(remainBuf))+1 {
+			s.bufSize *= 2
+		}
 		s.buf = make([]byte, s.bufSize)
 		copy(s.buf, remainBuf)
 	}
